@@ -682,7 +682,7 @@ class Workspace:
 
                 if keep_glob_results:
                     result.extend(PurePath(exp).as_posix()
-                                  for exp in glob.glob(entry, root_dir=path)
+                                  for exp in sorted(glob.glob(entry, root_dir=path))
                                   if os.path.isdir(os.path.join(path, exp)))
             return result
 
